@@ -43,6 +43,39 @@ def passes_start_transaction(call, target_params):
     return False
 
 
+def global_commit_rules(ctx, P='C17-ABORT'):
+    repo, cg = ctx.repo, ctx.cg
+    cm = repo.fn(CORE, 'commit'); g = cg.cfg(cm)
+    fl = nodes_calling(g, lambda c: is_call_to(c, 'cache', 'flush'))
+    rr = nodes_calling(g, lambda c: isinstance(c.func, ast.Name) and c.func.id == 'rollback_and_reraise')
+    ok = bool(fl) and bool(rr)
+    for s in fl:
+        es = [y for y, lab in g.succ[s.id] if lab == 'exc']
+        if g.raise_.id in g.reach(es, avoid=rr): ok = False
+    ctx.ob(P + '.global-commit-rolls-back-on-flush-failure', cm, fl[0].ast if fl else cm.node, ok, '' if ok else 'commit(): flush failure not rolled back')
+    pcm = nodes_calling(g, lambda c: is_call_to(c, 'primary_cache', 'commit'))
+    orb = nodes_calling(g, lambda c: is_call_to(c, 'cache', 'rollback'))
+    ok = bool(pcm) and bool(orb)
+    for s in pcm:
+        es = [y for y, lab in g.succ[s.id] if lab == 'exc']
+        tr = nodes_calling(g, lambda c: isinstance(c.func, ast.Name) and c.func.id == 'transact_reraise')
+        # after the primary commit fails the loop over the other caches (containing rollback) is entered before re-raising
+        loops = [x for x in g.nodes if x.kind == 'iter' and any(o.id in g.reach([x]) for o in orb)]
+        # (failures of the bookkeeping statements inside the handler itself are not modelled)
+        if not loops or any(t.id in g.reach(es, avoid=loops, edge_ok=lambda x, y, lab: lab not in ('exc', 'unmatched') or x == s.id or g.nodes[x].kind == 'dispatch') for t in tr): ok = False
+    ctx.ob(P + '.global-commit-rolls-back-others', cm, pcm[0].ast if pcm else cm.node, ok, '' if ok else 'commit(): other caches are not rolled back when the primary commit fails')
+    # every cache is flushed before ANY database is committed: a flush error (constraint, cycle, hook) in one database must
+    # surface while nothing is committed yet
+    loops = [x for x in g.nodes if x.kind == 'iter' and norm(x.ast.iter) == 'caches' and any(f_.id in g.reach([x]) for f_ in fl)]
+    commits = nodes_calling(g, lambda c: isinstance(c.func, ast.Attribute) and c.func.attr == 'commit')
+    ok = bool(loops) and bool(commits) and all(g.dominated(c_, loops) for c_ in commits) and any(
+        isinstance(st, ast.For) and norm(st.iter) == 'caches' and any(is_call_to(c_, norm(st.target), 'flush') for c_ in calls_in(st)) for st in walk_no_nested(cm.node))
+    ctx.ob(P + '.global-commit-flushes-every-database-first', cm, fl[0].ast if fl else cm.node, ok,
+           '' if ok else 'commit() does not flush ALL session caches (`for cache in caches: cache.flush()`) before the first database is committed: with two databases in one '
+           'db_session a flush error in the second one is raised after the first one is durably committed (PartialCommitException instead of a clean rollback)',
+           expected='for cache in caches: cache.flush()  -- before primary_cache.commit()')
+
+
 def run(ctx):
     repo, cg = ctx.repo, ctx.cg
     ex = repo.fn(CORE, 'Database._exec_sql')
@@ -165,25 +198,7 @@ def run(ctx):
         ctx.ob('C17-ABORT.rollback-when-%s-fails' % what, f, src[0].ast if src else f.node, ok,
                '' if ok else 'a failure of %s() in %s propagates without cache.rollback(): the connection goes back to the pool with the '
                'partial transaction still open' % (what, qual))
-    cm = repo.fn(CORE, 'commit'); g = cg.cfg(cm)
-    fl = nodes_calling(g, lambda c: is_call_to(c, 'cache', 'flush'))
-    rr = nodes_calling(g, lambda c: isinstance(c.func, ast.Name) and c.func.id == 'rollback_and_reraise')
-    ok = bool(fl) and bool(rr)
-    for s in fl:
-        es = [y for y, lab in g.succ[s.id] if lab == 'exc']
-        if g.raise_.id in g.reach(es, avoid=rr): ok = False
-    ctx.ob('C17-ABORT.global-commit-rolls-back-on-flush-failure', cm, fl[0].ast if fl else cm.node, ok, '' if ok else 'commit(): flush failure not rolled back')
-    pcm = nodes_calling(g, lambda c: is_call_to(c, 'primary_cache', 'commit'))
-    orb = nodes_calling(g, lambda c: is_call_to(c, 'cache', 'rollback'))
-    ok = bool(pcm) and bool(orb)
-    for s in pcm:
-        es = [y for y, lab in g.succ[s.id] if lab == 'exc']
-        tr = nodes_calling(g, lambda c: isinstance(c.func, ast.Name) and c.func.id == 'transact_reraise')
-        # after the primary commit fails the loop over the other caches (containing rollback) is entered before re-raising
-        loops = [x for x in g.nodes if x.kind == 'iter' and any(o.id in g.reach([x]) for o in orb)]
-        # (failures of the bookkeeping statements inside the handler itself are not modelled)
-        if not loops or any(t.id in g.reach(es, avoid=loops, edge_ok=lambda x, y, lab: lab not in ('exc', 'unmatched') or x == s.id or g.nodes[x].kind == 'dispatch') for t in tr): ok = False
-    ctx.ob('C17-ABORT.global-commit-rolls-back-others', cm, pcm[0].ast if pcm else cm.node, ok, '' if ok else 'commit(): other caches are not rolled back when the primary commit fails')
+    global_commit_rules(ctx)
     rbk = repo.fn(CORE, 'rollback_and_reraise'); g = cg.cfg(rbk)
     rb = nodes_calling(g, lambda c: isinstance(c.func, ast.Name) and c.func.id == 'rollback')
     ok = bool(rb) and g.must_pass_after(g.entry, rb, exits=[g.raise_, g.exit])
@@ -191,6 +206,7 @@ def run(ctx):
 
 
 MUTANTS = [
+    dict(id='C17-g1', file='pony/orm/core.py', fn='commit', old="        for cache in caches:\n            cache.flush()\n", new="        caches[0].flush()\n", expect='C17-ABORT.global-commit'),
     dict(id='C17-b1', file='pony/orm/dbproviders/sqlite.py', fn='SQLiteProvider.set_transaction_mode', old="                cursor.execute(sql)\n                cache.in_transaction = True\n", new="                cache.in_transaction = True\n                cursor.execute(sql)\n", expect='C17-BEGIN.sqlite-flag'),
     dict(id='C17-m1', file='pony/orm/core.py', fn='Entity._save_deleted_', old='database._exec_sql(sql, arguments, start_transaction=True)', new='database._exec_sql(sql, arguments)', expect='C17-DML.statement'),
     dict(id='C17-m2', file='pony/orm/core.py', fn='Entity._save_updated_', old='cursor = database._exec_sql(sql, arguments, start_transaction=True)', new='cursor = database._exec_sql(sql, arguments)', expect='C17-DML.statement'),
